@@ -148,7 +148,7 @@ example (a b : Bytes) (n : Nat) : OpsSim unitOps a b n (fun d _ _ => d = 0) (fun
   { tag := fun _ _ _ _ _ _ => Or.inr ⟨rfl, fun _ => rfl⟩
     nonTag := fun _ _ _ _ _ _ _ => Or.inr ⟨rfl, fun _ => rfl⟩
     text := fun _ _ _ d _ _ _ hd _ h0 => by omega
-    textOk := fun _ _ _ _ => Or.inr rfl
+    textOk := fun _ _ _ _ _ _ _ => Or.inr rfl
     startHint := fun _ _ _ _ _ => Or.inr ⟨rfl, fun _ => rfl⟩
     endHint := fun _ _ _ _ => Or.inr ⟨rfl, fun _ => rfl⟩ }
 
@@ -242,7 +242,7 @@ bytes, and delivering a text chunk in two pieces is `E`-equivalent to delivering
 
 /-- **C02, any chunking against one write.** -/
 theorem C02_chunk_vs_single {γ : Type} (w : World γ) (E : γ → γ → Prop) (g : γ) (cfg : Settings) (cs : List Bytes)
-    (hwf : WfChunk w.tbl = true) (hcl : TextBlind w.ctl E) (hne : cs ≠ [])
+    (hwf : WfChunk w.tbl = true) (hcl : TextBlind w.ctl E) (hg : E g g) (hne : cs ≠ [])
     (hc : Clean (C01.run w (C01.Rewriter.new w g cfg) cs).2)
     (hcW : Clean (C01.run w (C01.Rewriter.new w g cfg) [cs.flatten]).2) :
     outcome (C01.run w (C01.Rewriter.new w g cfg) cs).2 = outcome (C01.run w (C01.Rewriter.new w g cfg) [cs.flatten]).2 ∧
@@ -251,7 +251,7 @@ theorem C02_chunk_vs_single {γ : Type} (w : World γ) (E : γ → γ → Prop) 
         sinkBytes (C01.run w (C01.Rewriter.new w g cfg) [cs.flatten]).1.sink ∧
       E (C01.run w (C01.Rewriter.new w g cfg) cs).1.stream.disp.ctl
         (C01.run w (C01.Rewriter.new w g cfg) [cs.flatten]).1.stream.disp.ctl) := by
-  rcases chunking_vs_single (fs := flagMap w.tbl) hcl hwf g cfg cs hne with h | h | h
+  rcases chunking_vs_single (fs := flagMap w.tbl) hcl hwf g hg cfg cs hne with h | h | h
   · exact absurd hc (not_clean_of_uncleanL h)
   · exact absurd hcW (not_clean_of_uncleanL h)
   · exact h
@@ -260,7 +260,7 @@ theorem C02_chunk_vs_single {γ : Type} (w : World γ) (E : γ → γ → Prop) 
 success the same bytes at the sink and controller states both `E`-related to that of the single-write run
 (for `E := Eq`: the same final controller state). -/
 theorem C02_chunk_invariance {γ : Type} (w : World γ) (E : γ → γ → Prop) (g : γ) (cfg : Settings) (cs₁ cs₂ : List Bytes)
-    (hwf : WfChunk w.tbl = true) (hcl : TextBlind w.ctl E) (h1 : cs₁ ≠ []) (h2 : cs₂ ≠ [])
+    (hwf : WfChunk w.tbl = true) (hcl : TextBlind w.ctl E) (hg : E g g) (h1 : cs₁ ≠ []) (h2 : cs₂ ≠ [])
     (hflat : cs₁.flatten = cs₂.flatten)
     (hc1 : Clean (C01.run w (C01.Rewriter.new w g cfg) cs₁).2)
     (hc2 : Clean (C01.run w (C01.Rewriter.new w g cfg) cs₂).2)
@@ -271,8 +271,8 @@ theorem C02_chunk_invariance {γ : Type} (w : World γ) (E : γ → γ → Prop)
         sinkBytes (C01.run w (C01.Rewriter.new w g cfg) cs₂).1.sink ∧
       ∃ gW, E (C01.run w (C01.Rewriter.new w g cfg) cs₁).1.stream.disp.ctl gW ∧
         E (C01.run w (C01.Rewriter.new w g cfg) cs₂).1.stream.disp.ctl gW) := by
-  obtain ⟨a1, a2⟩ := C02_chunk_vs_single w E g cfg cs₁ hwf hcl h1 hc1 hcW
-  obtain ⟨b1, b2⟩ := C02_chunk_vs_single w E g cfg cs₂ hwf hcl h2 hc2 (by rw [← hflat]; exact hcW)
+  obtain ⟨a1, a2⟩ := C02_chunk_vs_single w E g cfg cs₁ hwf hcl hg h1 hc1 hcW
+  obtain ⟨b1, b2⟩ := C02_chunk_vs_single w E g cfg cs₂ hwf hcl hg h2 hc2 (by rw [← hflat]; exact hcW)
   rw [← hflat] at b1 b2
   refine ⟨by rw [a1, b1], fun hok => ?_⟩
   obtain ⟨a3, a4⟩ := a2 hok
@@ -282,13 +282,13 @@ theorem C02_chunk_invariance {γ : Type} (w : World γ) (E : γ → γ → Prop)
 /-- **C09 (schedule independence).** After any sequence of successful writes the sink has received exactly
 the bytes that a fresh rewriter given the same bytes in ONE write has emitted (and that write succeeds). -/
 theorem C09_schedule_independent {γ : Type} (w : World γ) (E : γ → γ → Prop) (g : γ) (cfg : Settings) (cs : List Bytes)
-    (hwf : WfChunk w.tbl = true) (hcl : TextBlind w.ctl E) (hne : cs ≠ [])
+    (hwf : WfChunk w.tbl = true) (hcl : TextBlind w.ctl E) (hg : E g g) (hne : cs ≠ [])
     (hall : ∀ r ∈ (C01.writeAll w (C01.Rewriter.new w g cfg) cs).2, r = .ok)
     (hcW : Clean [((C01.Rewriter.new w g cfg).write w cs.flatten).2]) :
     ((C01.Rewriter.new w g cfg).write w cs.flatten).2 = .ok ∧
     sinkBytes (C01.writeAll w (C01.Rewriter.new w g cfg) cs).1.sink =
       sinkBytes ((C01.Rewriter.new w g cfg).write w cs.flatten).1.sink := by
-  rcases writes_vs_single (fs := flagMap w.tbl) hcl hwf g cfg cs hne hall with h | ⟨h1, h2, _⟩
+  rcases writes_vs_single (fs := flagMap w.tbl) hcl hwf g hg cfg cs hne hall with h | ⟨h1, h2, _⟩
   · exfalso
     obtain ⟨r1, _, _⟩ := write_res (w := w) (C01.Rewriter.new w g cfg) rfl cs.flatten
     have hcl' := hcW _ List.mem_cons_self
@@ -313,7 +313,8 @@ theorem textBlind_of_ignoresText {γ : Type} (ctl : Controller γ)
     (text : ∀ g b tt l s, (ctl.token g (.text b tt l s)).1 = g ∧ (ctl.token g (.text b tt l s)).2.err = none ∧
       (ctl.token g (.text b tt l s)).2.nextEncoding = none ∧ (ctl.token g (.text b tt l s)).2.chunks.flatten = b) :
     TextBlind ctl Eq where
-  refl := fun _ => rfl
+  dom := fun _ _ _ => ⟨rfl, rfl⟩
+  dom_tok := fun _ _ _ => rfl
   trans := fun _ _ _ h1 h2 => h1.trans h2
   token_norm := token_norm
   aux_norm := aux_norm
@@ -323,9 +324,9 @@ theorem textBlind_of_ignoresText {γ : Type} (ctl : Controller γ)
   emit := emit
   flags := fun g g' h => by subst h; rfl
   tok := fun g g' t h _ => by subst h; exact ⟨rfl, rfl, rfl, rfl⟩
-  text_ok := fun g b tt l s => (text g b tt l s).2
+  text_ok := fun g b tt l s _ => (text g b tt l s).2
   text_cong := fun g g' b tt l s h => by subst h; rfl
-  text_split := fun g b1 b2 tt l s => by rw [(text _ _ _ _ _).1, (text _ _ _ _ _).1, (text _ _ _ _ _).1]
+  text_split := fun g b1 b2 tt l s _ => by rw [(text _ _ _ _ _).1, (text _ _ _ _ _).1, (text _ _ _ _ _).1]
   handleEnd := fun g g' h => by subst h; exact ⟨rfl, rfl⟩
 
 /-- the constant-flags observers of C01 (pure tag scanning for flags `0`, full lexing for flags `31`, and
@@ -352,7 +353,7 @@ theorem C02_chunk_invariance_partial (f : Nat) (cfg : Settings) (cs₁ cs₂ : L
     (outcome (C01.run (C01.genWorld f) (C01.Rewriter.new (C01.genWorld f) () cfg) cs₁).2 = .ok →
       sinkBytes (C01.run (C01.genWorld f) (C01.Rewriter.new (C01.genWorld f) () cfg) cs₁).1.sink =
         sinkBytes (C01.run (C01.genWorld f) (C01.Rewriter.new (C01.genWorld f) () cfg) cs₂).1.sink) := by
-  obtain ⟨a, b⟩ := C02_chunk_invariance (C01.genWorld f) Eq () cfg cs₁ cs₂ C02_wf_gen (constCtl_textBlind f) h1 h2 hflat hc1 hc2 hcW
+  obtain ⟨a, b⟩ := C02_chunk_invariance (C01.genWorld f) Eq () cfg cs₁ cs₂ C02_wf_gen (constCtl_textBlind f) rfl h1 h2 hflat hc1 hc2 hcW
   exact ⟨a, fun h => (b h).1⟩
 
 /-- **C09 for the code's current tables**, constant capture flags. -/
@@ -362,7 +363,7 @@ theorem C09_schedule_independent_partial (f : Nat) (cfg : Settings) (cs : List B
     ((C01.Rewriter.new (C01.genWorld f) () cfg).write (C01.genWorld f) cs.flatten).2 = .ok ∧
     sinkBytes (C01.writeAll (C01.genWorld f) (C01.Rewriter.new (C01.genWorld f) () cfg) cs).1.sink =
       sinkBytes ((C01.Rewriter.new (C01.genWorld f) () cfg).write (C01.genWorld f) cs.flatten).1.sink :=
-  C09_schedule_independent (C01.genWorld f) Eq () cfg cs C02_wf_gen (constCtl_textBlind f) hne hall hcW
+  C09_schedule_independent (C01.genWorld f) Eq () cfg cs C02_wf_gen (constCtl_textBlind f) rfl hne hall hcW
 
 /-! ## Instances of the full statements on the generated table (evidence, by evaluation)
 
@@ -429,7 +430,8 @@ def byteCounter : Controller Nat :=
     bailOut := fun n _ => (n, []) }
 
 theorem byteCounter_textBlind : TextBlind byteCounter Eq where
-  refl := fun _ => rfl
+  dom := fun _ _ _ => ⟨rfl, rfl⟩
+  dom_tok := fun _ _ _ => rfl
   trans := fun _ _ _ h1 h2 => h1.trans h2
   token_norm := fun g t t' h => by
     cases t <;> cases t' <;> simp only [normToken] at h <;> first | cases h | skip
@@ -441,9 +443,9 @@ theorem byteCounter_textBlind : TextBlind byteCounter Eq where
   emit := fun _ => rfl
   flags := fun g g' h => by subst h; rfl
   tok := fun g g' t h _ => by subst h; exact ⟨rfl, rfl, rfl, rfl⟩
-  text_ok := fun g b tt l s => ⟨rfl, rfl, by simp [byteCounter]⟩
+  text_ok := fun g b tt l s _ => ⟨rfl, rfl, by simp [byteCounter]⟩
   text_cong := fun g g' b tt l s h => by subst h; rfl
-  text_split := fun g b1 b2 tt l s => by
+  text_split := fun g b1 b2 tt l s _ => by
     show g + b1.length + b2.length = g + (b1 ++ b2).length
     rw [List.length_append]; omega
   handleEnd := fun g g' h => by subst h; exact ⟨rfl, rfl⟩
